@@ -39,7 +39,7 @@ func runC03(tier, replay string) {
 	nh, steps := 5, 24
 	if r.Thorough() {
 		stacks = []string{"fs", "sql", "tink>fs", "outbox>fs", "ec21", "named"}
-		nh, steps = 10, 50
+		nh, steps = 6, 40
 	}
 	only, onlyStack, onlyStep := -1, "", -1
 	if replay != "" {
